@@ -1356,6 +1356,7 @@ class EdgeQLSourceGenerator(codegen.SourceGenerator):
         self,
         node: qlast.CreateExtension,
     ) -> None:
+        self._visit_aliases(node)
         if self.sdlmode or self.descmode:
             self._write_keywords('using extension')
         else:
@@ -1369,6 +1370,7 @@ class EdgeQLSourceGenerator(codegen.SourceGenerator):
             self._ddl_visit_body(node.commands)
 
     def visit_AlterExtension(self, node: qlast.AlterExtension) -> None:
+        self._visit_aliases(node)
         self._write_keywords('ALTER EXTENSION')
         self.write(' ')
         self.write(ident_to_str(node.name.name))
@@ -1385,6 +1387,7 @@ class EdgeQLSourceGenerator(codegen.SourceGenerator):
         self,
         node: qlast.CreateFuture,
     ) -> None:
+        self._visit_aliases(node)
         if self.sdlmode or self.descmode:
             self._write_keywords('using future')
         else:
